@@ -9,6 +9,16 @@ type nat =
 | O
 | S of nat
 
+(** val fst : ('a1 * 'a2) -> 'a1 **)
+
+let fst = function
+| (x, _) -> x
+
+(** val snd : ('a1 * 'a2) -> 'a2 **)
+
+let snd = function
+| (_, y) -> y
+
 (** val length : 'a1 list -> nat **)
 
 let rec length = function
@@ -34,6 +44,15 @@ let compOpp = function
 | Lt -> Gt
 | Gt -> Lt
 
+(** val sub : nat -> nat -> nat **)
+
+let rec sub n0 m =
+  match n0 with
+  | O -> n0
+  | S k -> (match m with
+            | O -> n0
+            | S l -> sub k l)
+
 type positive =
 | XI of positive
 | XO of positive
@@ -47,6 +66,61 @@ type z =
 | Z0
 | Zpos of positive
 | Zneg of positive
+
+module Nat =
+ struct
+  (** val add : nat -> nat -> nat **)
+
+  let rec add n0 m =
+    match n0 with
+    | O -> m
+    | S p -> S (add p m)
+
+  (** val sub : nat -> nat -> nat **)
+
+  let rec sub n0 m =
+    match n0 with
+    | O -> n0
+    | S k -> (match m with
+              | O -> n0
+              | S l -> sub k l)
+
+  (** val leb : nat -> nat -> bool **)
+
+  let rec leb n0 m =
+    match n0 with
+    | O -> true
+    | S n' -> (match m with
+               | O -> false
+               | S m' -> leb n' m')
+
+  (** val ltb : nat -> nat -> bool **)
+
+  let ltb n0 m =
+    leb (S n0) m
+
+  (** val divmod : nat -> nat -> nat -> nat -> nat * nat **)
+
+  let rec divmod x y q u =
+    match x with
+    | O -> (q, u)
+    | S x' ->
+      (match u with
+       | O -> divmod x' y (S q) y
+       | S u' -> divmod x' y q u')
+
+  (** val div : nat -> nat -> nat **)
+
+  let div x y = match y with
+  | O -> y
+  | S y' -> fst (divmod x y' O y')
+
+  (** val modulo : nat -> nat -> nat **)
+
+  let modulo x = function
+  | O -> x
+  | S y' -> sub y' (snd (divmod x y' O y'))
+ end
 
 module Pos =
  struct
@@ -305,6 +379,12 @@ let rec map f = function
 | [] -> []
 | a :: t -> (f a) :: (map f t)
 
+(** val fold_right : ('a2 -> 'a1 -> 'a1) -> 'a1 -> 'a2 list -> 'a1 **)
+
+let rec fold_right f a0 = function
+| [] -> a0
+| b :: t -> f b (fold_right f a0 t)
+
 (** val forallb : ('a1 -> bool) -> 'a1 list -> bool **)
 
 let rec forallb f = function
@@ -316,6 +396,12 @@ let rec forallb f = function
 let rec filter f = function
 | [] -> []
 | x :: l0 -> if f x then x :: (filter f l0) else filter f l0
+
+(** val repeat : 'a1 -> nat -> 'a1 list **)
+
+let rec repeat x = function
+| O -> []
+| S k -> x :: (repeat x k)
 
 (** val ex_keep :
     (((((nat * n) * z) * z list) * z option) * positive) * bool **)
@@ -684,6 +770,43 @@ let int_token_outcome checked lim t =
   match decode_int_token lim t with
   | S2N v -> Accepted v
   | _ -> if checked then PositionedError else InternalCrash
+
+(** val dot_ev : event **)
+
+let dot_ev =
+  EvChar (Zpos (XO (XI (XI (XI (XO XH))))))
+
+(** val dots : nat -> event list **)
+
+let dots n0 =
+  repeat dot_ev n0
+
+(** val dot_tokens : nat -> nat list **)
+
+let dot_tokens n0 =
+  app (repeat (S (S (S O))) (Nat.div n0 (S (S (S O)))))
+    (repeat (S O) (Nat.modulo n0 (S (S (S O)))))
+
+(** val import_level : nat list -> nat **)
+
+let import_level toks =
+  fold_right Nat.add O toks
+
+(** val longest_from : ere -> event list -> nat -> nat -> nat **)
+
+let rec longest_from r w pos best =
+  match w with
+  | [] -> best
+  | e :: w' ->
+    let r' = n_deriv e r in
+    if is_empty r'
+    then best
+    else longest_from r' w' (S pos) (if e_nullable r' then S pos else best)
+
+(** val longest : ere -> event list -> nat **)
+
+let longest r w =
+  longest_from r w O O
 
 (** val x_lex_int : ere **)
 
@@ -1463,3 +1586,126 @@ let x_py_kind t =
 let x_strbegin t =
   let w = map (fun x -> EvChar x) t in
   ((n_matches x_lex_strbegin w), (n_matches x_py_strbegin w))
+
+(** val x_lex_text : ere **)
+
+let x_lex_text =
+  EAlt (EEmpty, (ESeq ((EAlt ((ESym SBol), EEps)), (EAlt ((EAlt (EEmpty,
+    (EAlt ((ESeq ((ERange ((Zpos (XO (XI (XI (XI (XO XH)))))), (Zpos (XI (XI
+    (XI (XI (XO XH)))))))), (ESeq ((ERange ((Zpos (XO (XI (XI (XI (XO
+    XH)))))), (Zpos (XI (XI (XI (XI (XO XH)))))))), (ESeq ((ERange ((Zpos (XO
+    (XI (XI (XI (XO XH)))))), (Zpos (XI (XI (XI (XI (XO XH)))))))),
+    EEps)))))), (EAlt ((EAlt (EEmpty, (EAlt ((ERange ((Zpos (XI (XO (XO (XO
+    (XO XH)))))), (Zpos (XO (XI (XO (XO (XO XH)))))))), (EAlt ((ERange ((Zpos
+    (XI (XO (XI (XO (XO XH)))))), (Zpos (XI (XI (XI (XO (XO XH)))))))), (EAlt
+    ((ERange ((Zpos (XO (XI (XO (XI (XO XH)))))), (Zpos (XO (XO (XO (XO (XI
+    XH)))))))), (EAlt ((ERange ((Zpos (XO (XI (XO (XI (XI XH)))))), (Zpos (XI
+    (XO (XO (XO (XO (XO XH))))))))), (EAlt ((ERange ((Zpos (XO (XI (XI (XI
+    (XI (XO XH))))))), (Zpos (XI (XI (XI (XI (XI (XO XH))))))))), (EAlt
+    ((ERange ((Zpos (XO (XO (XO (XO (XO (XI XH))))))), (Zpos (XI (XO (XO (XO
+    (XO (XI XH))))))))), (EAlt ((ERange ((Zpos (XO (XO (XI (XI (XI (XI
+    XH))))))), (Zpos (XI (XO (XI (XI (XI (XI XH))))))))), (EAlt ((ERange
+    ((Zpos (XO (XI (XI (XI (XI (XI XH))))))), (Zpos (XI (XI (XI (XI (XI (XI
+    XH))))))))), EEmpty)))))))))))))))))), EEmpty)))))), (EAlt ((EAlt
+    (EEmpty, (EAlt ((ESeq ((ERange ((Zpos (XI (XO (XI (XI (XI XH)))))), (Zpos
+    (XO (XI (XI (XI (XI XH)))))))), (ESeq ((ERange ((Zpos (XI (XO (XI (XI (XI
+    XH)))))), (Zpos (XO (XI (XI (XI (XI XH)))))))), EEps)))), (EAlt ((ESeq
+    ((ERange ((Zpos (XO (XO (XI (XI (XI XH)))))), (Zpos (XI (XO (XI (XI (XI
+    XH)))))))), (ESeq ((ERange ((Zpos (XO (XI (XI (XI (XI XH)))))), (Zpos (XI
+    (XI (XI (XI (XI XH)))))))), EEps)))), (EAlt ((ESeq ((ERange ((Zpos (XI
+    (XO (XO (XO (XO XH)))))), (Zpos (XO (XI (XO (XO (XO XH)))))))), (ESeq
+    ((ERange ((Zpos (XI (XO (XI (XI (XI XH)))))), (Zpos (XO (XI (XI (XI (XI
+    XH)))))))), EEps)))), (EAlt ((ESeq ((ERange ((Zpos (XO (XO (XI (XI (XI
+    XH)))))), (Zpos (XI (XO (XI (XI (XI XH)))))))), (ESeq ((ERange ((Zpos (XI
+    (XO (XI (XI (XI XH)))))), (Zpos (XO (XI (XI (XI (XI XH)))))))), EEps)))),
+    (EAlt ((ESeq ((ERange ((Zpos (XO (XI (XI (XI (XI XH)))))), (Zpos (XI (XI
+    (XI (XI (XI XH)))))))), (ESeq ((ERange ((Zpos (XI (XO (XI (XI (XI
+    XH)))))), (Zpos (XO (XI (XI (XI (XI XH)))))))), EEps)))), (EAlt ((ESeq
+    ((ERange ((Zpos (XO (XO (XI (XI (XI XH)))))), (Zpos (XI (XO (XI (XI (XI
+    XH)))))))), (ESeq ((ERange ((Zpos (XO (XO (XI (XI (XI XH)))))), (Zpos (XI
+    (XO (XI (XI (XI XH)))))))), EEps)))), (EAlt ((ESeq ((ERange ((Zpos (XO
+    (XI (XI (XI (XI XH)))))), (Zpos (XI (XI (XI (XI (XI XH)))))))), (ESeq
+    ((ERange ((Zpos (XO (XI (XI (XI (XI XH)))))), (Zpos (XI (XI (XI (XI (XI
+    XH)))))))), EEps)))), (EAlt ((ESeq ((ERange ((Zpos (XO (XI (XO (XI (XO
+    XH)))))), (Zpos (XI (XI (XO (XI (XO XH)))))))), (ESeq ((ERange ((Zpos (XO
+    (XI (XO (XI (XO XH)))))), (Zpos (XI (XI (XO (XI (XO XH)))))))), EEps)))),
+    (EAlt ((ESeq ((ERange ((Zpos (XI (XI (XI (XI (XO XH)))))), (Zpos (XO (XO
+    (XO (XO (XI XH)))))))), (ESeq ((ERange ((Zpos (XI (XI (XI (XI (XO
+    XH)))))), (Zpos (XO (XO (XO (XO (XI XH)))))))), EEps)))), (EAlt ((ESeq
+    ((ERange ((Zpos (XI (XI (XO (XI (XO XH)))))), (Zpos (XO (XO (XI (XI (XO
+    XH)))))))), (ESeq ((ERange ((Zpos (XI (XO (XI (XI (XI XH)))))), (Zpos (XO
+    (XI (XI (XI (XI XH)))))))), EEps)))), (EAlt ((ESeq ((ERange ((Zpos (XI
+    (XO (XI (XI (XO XH)))))), (Zpos (XO (XI (XI (XI (XO XH)))))))), (ESeq
+    ((ERange ((Zpos (XI (XO (XI (XI (XI XH)))))), (Zpos (XO (XI (XI (XI (XI
+    XH)))))))), EEps)))), (EAlt ((ESeq ((ERange ((Zpos (XO (XI (XO (XI (XO
+    XH)))))), (Zpos (XI (XI (XO (XI (XO XH)))))))), (ESeq ((ERange ((Zpos (XI
+    (XO (XI (XI (XI XH)))))), (Zpos (XO (XI (XI (XI (XI XH)))))))), EEps)))),
+    (EAlt ((ESeq ((ERange ((Zpos (XI (XI (XI (XI (XO XH)))))), (Zpos (XO (XO
+    (XO (XO (XI XH)))))))), (ESeq ((ERange ((Zpos (XI (XO (XI (XI (XI
+    XH)))))), (Zpos (XO (XI (XI (XI (XI XH)))))))), EEps)))), (EAlt ((ESeq
+    ((ERange ((Zpos (XI (XO (XI (XO (XO XH)))))), (Zpos (XO (XI (XI (XO (XO
+    XH)))))))), (ESeq ((ERange ((Zpos (XI (XO (XI (XI (XI XH)))))), (Zpos (XO
+    (XI (XI (XI (XI XH)))))))), EEps)))), (EAlt ((ESeq ((ERange ((Zpos (XO
+    (XO (XI (XI (XI (XI XH))))))), (Zpos (XI (XO (XI (XI (XI (XI XH))))))))),
+    (ESeq ((ERange ((Zpos (XI (XO (XI (XI (XI XH)))))), (Zpos (XO (XI (XI (XI
+    (XI XH)))))))), EEps)))), (EAlt ((ESeq ((ERange ((Zpos (XO (XI (XI (XI
+    (XI (XO XH))))))), (Zpos (XI (XI (XI (XI (XI (XO XH))))))))), (ESeq
+    ((ERange ((Zpos (XI (XO (XI (XI (XI XH)))))), (Zpos (XO (XI (XI (XI (XI
+    XH)))))))), EEps)))), (EAlt ((ESeq ((ERange ((Zpos (XO (XI (XI (XO (XO
+    XH)))))), (Zpos (XI (XI (XI (XO (XO XH)))))))), (ESeq ((ERange ((Zpos (XI
+    (XO (XI (XI (XI XH)))))), (Zpos (XO (XI (XI (XI (XI XH)))))))), EEps)))),
+    (EAlt ((ESeq ((ERange ((Zpos (XO (XO (XI (XI (XI XH)))))), (Zpos (XI (XO
+    (XI (XI (XI XH)))))))), (ESeq ((ERange ((Zpos (XO (XO (XI (XI (XI
+    XH)))))), (Zpos (XI (XO (XI (XI (XI XH)))))))), (ESeq ((ERange ((Zpos (XI
+    (XO (XI (XI (XI XH)))))), (Zpos (XO (XI (XI (XI (XI XH)))))))),
+    EEps)))))), (EAlt ((ESeq ((ERange ((Zpos (XO (XI (XI (XI (XI XH)))))),
+    (Zpos (XI (XI (XI (XI (XI XH)))))))), (ESeq ((ERange ((Zpos (XO (XI (XI
+    (XI (XI XH)))))), (Zpos (XI (XI (XI (XI (XI XH)))))))), (ESeq ((ERange
+    ((Zpos (XI (XO (XI (XI (XI XH)))))), (Zpos (XO (XI (XI (XI (XI
+    XH)))))))), EEps)))))), (EAlt ((ESeq ((ERange ((Zpos (XO (XI (XO (XI (XO
+    XH)))))), (Zpos (XI (XI (XO (XI (XO XH)))))))), (ESeq ((ERange ((Zpos (XO
+    (XI (XO (XI (XO XH)))))), (Zpos (XI (XI (XO (XI (XO XH)))))))), (ESeq
+    ((ERange ((Zpos (XI (XO (XI (XI (XI XH)))))), (Zpos (XO (XI (XI (XI (XI
+    XH)))))))), EEps)))))), (EAlt ((ESeq ((ERange ((Zpos (XI (XI (XI (XI (XO
+    XH)))))), (Zpos (XO (XO (XO (XO (XI XH)))))))), (ESeq ((ERange ((Zpos (XI
+    (XI (XI (XI (XO XH)))))), (Zpos (XO (XO (XO (XO (XI XH)))))))), (ESeq
+    ((ERange ((Zpos (XI (XO (XI (XI (XI XH)))))), (Zpos (XO (XI (XI (XI (XI
+    XH)))))))), EEps)))))), (EAlt ((ESeq ((ERange ((Zpos (XI (XO (XI (XI (XO
+    XH)))))), (Zpos (XO (XI (XI (XI (XO XH)))))))), (ESeq ((ERange ((Zpos (XO
+    (XI (XI (XI (XI XH)))))), (Zpos (XI (XI (XI (XI (XI XH)))))))), EEps)))),
+    (EAlt ((ESeq ((ERange ((Zpos (XO (XO (XO (XO (XO (XO XH))))))), (Zpos (XI
+    (XO (XO (XO (XO (XO XH))))))))), (ESeq ((ERange ((Zpos (XI (XO (XI (XI
+    (XI XH)))))), (Zpos (XO (XI (XI (XI (XI XH)))))))), EEps)))), (EAlt
+    ((ESeq ((ERange ((Zpos (XO (XI (XI (XO (XO XH)))))), (Zpos (XI (XI (XI
+    (XO (XO XH)))))))), (ESeq ((ERange ((Zpos (XO (XI (XI (XO (XO XH)))))),
+    (Zpos (XI (XI (XI (XO (XO XH)))))))), EEps)))), (EAlt ((ESeq ((ERange
+    ((Zpos (XO (XO (XI (XI (XI (XI XH))))))), (Zpos (XI (XO (XI (XI (XI (XI
+    XH))))))))), (ESeq ((ERange ((Zpos (XO (XO (XI (XI (XI (XI XH))))))),
+    (Zpos (XI (XO (XI (XI (XI (XI XH))))))))), EEps)))), (EAlt ((ESeq
+    ((ERange ((Zpos (XO (XI (XO (XI (XI XH)))))), (Zpos (XI (XI (XO (XI (XI
+    XH)))))))), (ESeq ((ERange ((Zpos (XI (XO (XI (XI (XI XH)))))), (Zpos (XO
+    (XI (XI (XI (XI XH)))))))), EEps)))),
+    EEmpty)))))))))))))))))))))))))))))))))))))))))))))))))))))),
+    EEmpty)))))))
+
+(** val x_lex_number : bool -> ere **)
+
+let x_lex_number fixed =
+  EAlt (x_lex_int, (EAlt (x_lex_float,
+    (if fixed then x_lex_imag_new else x_lex_imag_old))))
+
+(** val x_scan_dots : nat -> bool -> nat -> nat list **)
+
+let rec x_scan_dots fuel fixed n0 =
+  match fuel with
+  | O -> []
+  | S f ->
+    (match n0 with
+     | O -> []
+     | S _ ->
+       let k = longest x_lex_text (dots n0) in
+       if Nat.ltb O (longest (x_lex_number fixed) (dots n0))
+       then []
+       else (match k with
+             | O -> []
+             | S _ -> k :: (x_scan_dots f fixed (sub n0 k))))
